@@ -5,7 +5,8 @@ CHECK = {
     "technique": "stateless model checking of the implementation: deviation-bounded exhaustive exploration of thread schedules of the real photon loop under a cooperative scheduler, packet ledger oracle",
     "level_text": "Every thread schedule with at most 1 deviation from the default schedule (2 on selected configurations; "
                   "thorough: more threads/ownership variants and bound 2 on six configurations) of the real "
-                  "TaskBasedIonizationSimulation::run photon loop is executed on 15 tiny configurations (layouts, periodicity, "
+                  "TaskBasedIonizationSimulation::run photon loop (and of the duplicated loop inside "
+                  "TaskBasedRadiationHydrodynamicsSimulation::do_simulation, radiation on, 2 iterations per hydro step) is executed on 15 tiny configurations (layouts, periodicity, "
                   "point/boundary/external sources, diffuse re-emission, copy level, 1-2 iterations, 5-10 packets, buffer size 3). "
                   "A ledger fed by hooks checks on every execution that each launched packet terminates exactly once, "
                   "requested = terminated = done counter, per-task accounting matches, and that no buffer, task, queue entry, "
@@ -19,6 +20,7 @@ CHECK = {
     "quick_deadline": 100,
     "thorough_deadline": 1200,
     "parts": [{"name": "photon-loop", "bin": "c01_photon", "share": 9.0},
+              {"name": "rhd-photon-loop", "bin": "c07_hydroloop", "args": ["--mode", "2"], "share": 3.0},
               {"name": "packet-split", "bin": "c01_split", "share": 1.0},
               # ThreadSanitizer audit of the same loops running free (decides nothing, lists assumption gaps)
               {"name": "tsan-audit", "bin": "c01_tsan_audit", "needs": ["c01_tsan_run", "c01_photon", "c07_hydroloop"],
